@@ -57,5 +57,12 @@ PROPS["C10"] = {
     "explanation": "simulation of the hierarchical engine by the flat stack machine, any depth",
     "assumptions": ["leaves have a prep and a post of their own so that visits are visible in the callback trace"],
 }
+PROPS["C17"] = {
+    "parts": [ENGINE],
+    "level_text": "Theorems C17_prep_to_exec, C17_exec_to_post_value, C17_exec_to_post_error, C17_styles_interchangeable, C17_batch_item, C17_batch_slot: for all 8 Result/Any style combinations and every payload that is not itself a Result, the exec function observes exactly what the prep function returned, the post function observes exactly what exec returned (an error Result stays one error Result: never wrapped twice, never stripped; Any style sees Value()), and the two styles differ by Value() in every position; the lifecycle monitor (C01) compares every callback argument of the implementation with these adapter functions; correspondence: 8 styles x option/builder/mixed x 9 payload kinds (incl. typed nils, Results, error Results) x success / retry / fallback paths x single / in flow, plus sequential batches over 7 prep shapes.",
+    "level_note": _T + " Concurrent batches are exercised by the batch family.",
+    "explanation": "adapter algebra proved for every payload; monitor compares arguments; enumeration of styles x payload kinds",
+    "assumptions": ["payload identity is pointer identity for tokens; other payload kinds are compared by kind"],
+}
 
 NOT_APPLICABLE = {}
